@@ -474,3 +474,170 @@ Proof.
   - intros Ht. rewrite lexset_fix_field. cbn [fix_field]. rewrite Ht. rewrite HrawS by discriminate.
     apply (proj2 (parse_unrequested_split HR L bs wiS HpS) Ht).
 Qed.
+
+(* ==================================================================================================================
+   Part 3: the stages composed *)
+From SudachiVerif Require Model.Split Model.Lattice.
+
+(* (1) the lattice stage is not given the subset: the best path is the same whatever was requested *)
+Theorem lattice_ignores_subset : forall L1 L2 conn n ns, lattice_stage L1 conn n ns = lattice_stage L2 conn n ns.
+Proof. reflexivity. Qed.
+
+Section Stages.
+Variable getinfo : N -> N -> option winfo.
+Hypothesis Hget : getinfo_ok getinfo.
+
+(* what every ResultNode takes from the path, whatever the subset *)
+Definition from_path (pn : pnode) (rn : node) : Prop :=
+  nb rn = p_cb pn /\ ne rn = p_ce pn /\ bb rn = p_bb pn /\ be rn = p_be pn /\ oov rn = p_oov pn /\ cats rn = p_cats pn /\ cat0 rn = p_cat0 pn.
+
+Lemma resolve_from_path : forall L path pr, resolve getinfo L path = Some pr -> Forall2 from_path path pr.
+Proof.
+  intros L. induction path as [|pn t IH]; intros pr H; cbn [resolve] in H.
+  - inversion H. constructor.
+  - destruct (resolve_node getinfo L pn) as [r|] eqn:Er; [|discriminate].
+    destruct (resolve getinfo L t) as [rs|] eqn:Et; [|discriminate]. inversion H; subst.
+    constructor; [|apply IH; reflexivity].
+    unfold resolve_node in Er. destruct (p_oov pn) eqn:Eo.
+    + inversion Er; subst. unfold from_path, rnode_of_info. cbn. rewrite Eo. repeat split.
+    + destruct (getinfo L (p_wid pn)); [|discriminate]. inversion Er; subst. unfold from_path, rnode_of_info. cbn. rewrite Eo. repeat split.
+Qed.
+
+(* any subset resolves whenever the full one does *)
+Lemma resolve_total : forall L path prA, subset_of L ALL -> resolve getinfo ALL path = Some prA ->
+  exists prS, resolve getinfo L path = Some prS.
+Proof.
+  intros L. induction path as [|pn t IH]; intros prA Hsub H; cbn [resolve] in *; [eauto|].
+  destruct (resolve_node getinfo ALL pn) as [r|] eqn:Er; [|discriminate].
+  destruct (resolve getinfo ALL t) as [rs|] eqn:Et; [|discriminate].
+  destruct (IH rs Hsub eq_refl) as (ps & ->).
+  unfold resolve_node in *. destruct (p_oov pn); [eauto|].
+  destruct (getinfo ALL (p_wid pn)) as [iA|] eqn:EA; [|discriminate].
+  destruct (Hget L _ iA Hsub EA) as (iS & -> & _). cbn [option_map]. eauto.
+Qed.
+
+(* with SURFACE, POS_ID and NORMALIZED_FORM loaded the ResultNodes agree with the full load on all the plugins read *)
+Lemma resolve_agree : forall L path prA, subset_of L ALL ->
+  N.testbit L 0 = true -> N.testbit L 2 = true -> N.testbit L 3 = true ->
+  resolve getinfo ALL path = Some prA ->
+  exists prS, resolve getinfo L path = Some prS /\ Forall2 num_fields_eq prS prA.
+Proof.
+  intros L. induction path as [|pn t IH]; intros prA Hsub H0 H2 H3 H; cbn [resolve] in *.
+  - inversion H. exists nil. split; [reflexivity|constructor].
+  - destruct (resolve_node getinfo ALL pn) as [r|] eqn:Er; [|discriminate].
+    destruct (resolve getinfo ALL t) as [rs|] eqn:Et; [|discriminate]. inversion H; subst prA.
+    destruct (IH rs Hsub H0 H2 H3 eq_refl) as (ps & -> & Hps).
+    unfold resolve_node in *. destruct (p_oov pn).
+    + inversion Er; subst. eexists. split; [reflexivity|]. constructor; [apply num_fields_refl|exact Hps].
+    + destruct (getinfo ALL (p_wid pn)) as [iA|] eqn:EA; [|discriminate]. inversion Er; subst r.
+      destruct (Hget L _ iA Hsub EA) as (iS & -> & Heq & _). cbn [option_map]. eexists. split; [reflexivity|].
+      constructor; [|exact Hps].
+      unfold num_fields_eq, kat_fields_eq, rnode_of_info. cbn [nb ne bb be surf norm pos oov cats cat0].
+      rewrite (Heq F_surface ltac:(discriminate) H0), (Heq F_norm ltac:(discriminate) H3), (Heq F_pos ltac:(discriminate) H2).
+      repeat split.
+Qed.
+
+(* (3a) through the plugin chain: same outcome, and outputs that agree on ranges, surface, normalised form, part of
+   speech and OOV flag *)
+Theorem rewritten_agree : forall L pls path y, subset_of L ALL ->
+  N.testbit L 0 = true -> N.testbit L 2 = true -> N.testbit L 3 = true ->
+  rewritten getinfo ALL pls path = Some y ->
+  exists x, rewritten getinfo L pls path = Some x /\ ores_rel num_fields_eq x y.
+Proof.
+  intros L pls path y Hsub H0 H2 H3 H. unfold rewritten in *.
+  destruct (resolve getinfo ALL path) as [prA|] eqn:EA; [|discriminate]. cbn [option_map] in H. inversion H; subst y.
+  destruct (resolve_agree L path prA Hsub H0 H2 H3 EA) as (prS & -> & Hag). cbn [option_map].
+  eexists. split; [reflexivity|]. apply run_plugins_reads_only. exact Hag.
+Qed.
+
+(* (3b) without path-rewrite plugins: for EVERY subset the nodes carry the ranges (and word ids: those of the path) the
+   lattice chose *)
+Theorem rewritten_no_plugin : forall L path y, subset_of L ALL ->
+  rewritten getinfo ALL nil path = Some y ->
+  exists pr, rewritten getinfo L nil path = Some (Some (Ok pr)) /\ Forall2 from_path path pr.
+Proof.
+  intros L path y Hsub H. unfold rewritten in *.
+  destruct (resolve getinfo ALL path) as [prA|] eqn:EA; [|discriminate].
+  destruct (resolve_total L path prA Hsub EA) as (prS & ES). rewrite ES. cbn [option_map run_plugins].
+  exists prS. split; [reflexivity|]. apply (resolve_from_path L). exact ES.
+Qed.
+
+(* ---- splitting (Model/Split.v) reads the split list of the mode and the head-word lengths of the units ---- *)
+Lemma split_go_ext : forall hw1 hw2 t us a b c d, (forall u, In u us -> hw1 u = hw2 u) ->
+  Split.split_go hw1 t us a b c d = Split.split_go hw2 t us a b c d.
+Proof.
+  intros hw1 hw2 t. induction us as [|u rest IH]; intros a b c d H; [reflexivity|].
+  cbn [Split.split_go]. destruct rest as [|u2 rest']; [reflexivity|].
+  rewrite (H u (or_introl eq_refl)). destruct (Split.ch_idx t (b + hw2 u)); [|reflexivity].
+  rewrite IH; [reflexivity|]. intros x Hx. apply H. right. exact Hx.
+Qed.
+
+Lemma split_path_ext : forall hw1 hw2 t units1 units2 path,
+  (forall n, In n path -> units1 (Split.wid n) = units2 (Split.wid n) /\
+                          forall u, In u (units1 (Split.wid n)) -> hw1 u = hw2 u) ->
+  Split.split_path hw1 t units1 path = Split.split_path hw2 t units2 path.
+Proof.
+  intros hw1 hw2 t units1 units2. induction path as [|n r IH]; intros H; [reflexivity|].
+  cbn [Split.split_path]. destruct (H n (or_introl eq_refl)) as [Hu Hh]. rewrite <- Hu.
+  rewrite IH by (intros m Hm; apply H; right; exact Hm).
+  unfold Split.split_node. rewrite (split_go_ext hw1 hw2 t _ _ _ _ _ Hh). reflexivity.
+Qed.
+
+(* the words a split can reach exist in the dictionary *)
+Definition words_known (ps : list Split.node) : Prop :=
+  forall n, In n ps -> is_oov_id (Split.wid n) = false ->
+  exists i, getinfo ALL (Split.wid n) = Some i /\
+            forall u, In u (as_arr (i F_a) ++ as_arr (i F_b)) -> getinfo ALL u <> None.
+
+Lemma units_loaded : forall L f w, subset_of L ALL -> f = F_a \/ f = F_b -> N.testbit L (bit_of_fid f) = true ->
+  (is_oov_id w = false -> getinfo ALL w <> None) -> units_of getinfo f L w = units_of getinfo f ALL w.
+Proof.
+  intros L f w Hsub Hf Ht Hk. unfold units_of. destruct (is_oov_id w); [reflexivity|].
+  destruct (getinfo ALL w) as [iA|] eqn:EA; [|exfalso; apply Hk; reflexivity].
+  destruct (Hget L w iA Hsub EA) as (iS & -> & Heq & _).
+  rewrite (Heq f); [reflexivity| |exact Ht]. destruct Hf as [-> | ->]; discriminate.
+Qed.
+
+Lemma hw_loaded : forall L u, subset_of L ALL -> (N.testbit L 6 || N.testbit L 7) = true -> getinfo ALL u <> None ->
+  hw_of getinfo L u = hw_of getinfo ALL u.
+Proof.
+  intros L u Hsub Ht Hk. unfold hw_of. destruct (getinfo ALL u) as [iA|] eqn:EA; [|exfalso; apply Hk; reflexivity].
+  destruct (Hget L u iA Hsub EA) as (iS & -> & _ & Hh & _). rewrite (Hh Ht). reflexivity.
+Qed.
+
+Definition mode_bit (m : Split.mode) : N := match m with Split.ModeA => 6 | Split.ModeB => 7 | Split.ModeC => 0 end.
+
+(* (3c) the split stage of mode A / B gives the same sub-tokens (ranges AND word ids) as with all fields, as soon as the
+   split field of the mode is loaded -- which set_mode / set_subset see to; mode C does not split *)
+Theorem split_mode_preserved : forall L t m ps, subset_of L ALL ->
+  (m <> Split.ModeC -> N.testbit L (mode_bit m) = true) -> words_known ps ->
+  Split.tokenize_mode (hw_of getinfo L) t (units_of getinfo F_a L) (units_of getinfo F_b L) m ps =
+  Split.tokenize_mode (hw_of getinfo ALL) t (units_of getinfo F_a ALL) (units_of getinfo F_b ALL) m ps.
+Proof.
+  intros L t m ps Hsub Hbit Hk. destruct m; cbn [Split.tokenize_mode]; [| |reflexivity].
+  - assert (Ht : N.testbit L 6 = true) by (apply Hbit; discriminate).
+    apply split_path_ext. intros n Hn.
+    assert (Hw : is_oov_id (Split.wid n) = false -> getinfo ALL (Split.wid n) <> None).
+    { intros Ho. destruct (Hk n Hn Ho) as (i & -> & _). discriminate. }
+    split; [apply (units_loaded L F_a); auto|].
+    intros u Hu. apply hw_loaded; [exact Hsub|rewrite Ht; reflexivity|].
+    rewrite (units_loaded L F_a (Split.wid n) Hsub (or_introl eq_refl) Ht Hw) in Hu. unfold units_of in Hu.
+    destruct (is_oov_id (Split.wid n)) eqn:Eo; [contradiction|]. destruct (Hk n Hn Eo) as (i & Ei & Hus). rewrite Ei in Hu.
+    apply Hus. apply in_or_app. left. exact Hu.
+  - assert (Ht : N.testbit L 7 = true) by (apply Hbit; discriminate).
+    apply split_path_ext. intros n Hn.
+    assert (Hw : is_oov_id (Split.wid n) = false -> getinfo ALL (Split.wid n) <> None).
+    { intros Ho. destruct (Hk n Hn Ho) as (i & -> & _). discriminate. }
+    split; [apply (units_loaded L F_b); auto|].
+    intros u Hu. apply hw_loaded; [exact Hsub|rewrite Ht; apply orb_true_r|].
+    rewrite (units_loaded L F_b (Split.wid n) Hsub (or_intror eq_refl) Ht Hw) in Hu. unfold units_of in Hu.
+    destruct (is_oov_id (Split.wid n)) eqn:Eo; [contradiction|]. destruct (Hk n Hn Eo) as (i & Ei & Hus). rewrite Ei in Hu.
+    apply Hus. apply in_or_app. right. exact Hu.
+Qed.
+
+(* without plugins, end to end: every subset the tokenizer can hold in that mode *)
+Theorem split_stage_preserved : forall L t m path, subset_of L ALL ->
+  (m <> Split.ModeC -> N.testbit L (mode_bit m) = true) -> words_known (map snode_of_p path) ->
+  split_stage getinfo L t m path = split_stage getinfo ALL t m path.
+Proof. intros L t m path Hsub Hbit Hk. unfold split_stage. apply split_mode_preserved; assumption. Qed.
+End Stages.
